@@ -223,7 +223,7 @@ func Snapshot(lc *resolve.LocalClient, u Universe, extraReqs []resolve.VersionKe
 			sb.WriteString(" !" + err.Error())
 		}
 		for _, r := range rs {
-			fmt.Fprintf(&sb, " %s@%s{%s}", r.Name, r.Version, r.Type.String())
+			fmt.Fprintf(&sb, " %s@%s{%s}", r.Name, r.Version, TypeSig(r.Type))
 		}
 		sb.WriteString("\n")
 	}
@@ -261,4 +261,21 @@ func (u Universe) AllReqKeys() []resolve.VersionKey {
 func (u Universe) MustFind(pv [2]string) Ver {
 	v, _ := u.Find(pv[0], pv[1])
 	return v
+}
+
+var allDepKeys = []dep.AttrKey{dep.Dev, dep.Opt, dep.Test, dep.XTest, dep.Framework, dep.Scope, dep.MavenClassifier, dep.MavenArtifactType,
+	dep.MavenDependencyOrigin, dep.EnabledDependencies, dep.KnownAs, dep.MavenExclusions, dep.Environment, dep.Selector}
+
+// TypeSig renders a dependency type through every accessor: String follows the key bitmask while
+// GetAttr reads the value map, so a value written into a shared map without its key bit shows only here.
+func TypeSig(t dep.Type) string {
+	var sb strings.Builder
+	sb.WriteString(t.String())
+	sb.WriteString("|")
+	for _, k := range allDepKeys {
+		if v, ok := t.GetAttr(k); ok {
+			fmt.Fprintf(&sb, "%d=%q,", int(k), v)
+		}
+	}
+	return sb.String()
 }
